@@ -88,37 +88,29 @@ Theorem C06_built_settings_are_the_configured_ones :
 Proof. exact build_enabled_fields. Qed.
 Print Assumptions C06_built_settings_are_the_configured_ones.
 
-(* several sites may share a host name: all of them then get settings equal to their own (the
-   compatibility assert), for every proper host name.  For the catch-all spellings "", 0.0.0.0
-   and :: this is false of the code — see the _refuted theorem below. *)
-Theorem C06_same_name_sites_get_their_own_settings_partial :
+(* several sites may share a host name — or the catch-all key, which the spellings "", 0.0.0.0
+   and :: all map to: every one of them then gets settings equal to its own (the compatibility
+   assert is applied under the key the config is stored by). *)
+Theorem C06_same_name_sites_get_their_own_settings :
   forall dc bad cs g c,
   make_tls_config dc bad cs = MkGroup g -> In (Some c) cs ->
-  host c <> [] -> key_of (host c) = host c ->
-  exists i c' ob, mget (host c) g = Some (i, c', ob) /\ build dc bad c = Some ob.
-Proof. intros dc bad cs g c H Hin Hne Hk. exact (group_own_settings dc bad cs g c H Hin (conj Hne Hk)). Qed.
-Print Assumptions C06_same_name_sites_get_their_own_settings_partial.
+  exists i c' ob, mget (key_of (host c)) g = Some (i, c', ob) /\ build dc bad c = Some ob.
+Proof. exact group_own_settings. Qed.
+Print Assumptions C06_same_name_sites_get_their_own_settings.
 
 Example C06_same_name_sites_nonvacuous :
-  exists g, make_tls_config (default_ciphers true) []
+  (exists g, make_tls_config (default_ciphers true) []
               [Some (mkT (bs "a.com"%string) true TLS12 TLS13 [] [] [] true 2 [] false);
-               Some (mkT (bs "a.com"%string) true TLS12 TLS13 [] [] [] true 2 [] true)] = MkGroup g.
-Proof. eexists. vm_compute. reflexivity. Qed.
-
-Theorem C06_same_name_sites_get_their_own_settings_refuted :
-  exists dc bad cs g c i c' b b',
-  make_tls_config dc bad cs = MkGroup g /\ In (Some c) cs /\
-  mget (key_of (host c)) g = Some (i, c', Some b') /\ build dc bad c = Some (Some b) /\
-  b_cauth b <> b_cauth b'.
-Proof.
-  exists (default_ciphers true), [],
+               Some (mkT (bs "a.com"%string) true TLS12 TLS13 [] [] [] true 2 [] true)] = MkGroup g) /\
+  (exists g, make_tls_config (default_ciphers true) []
+              [Some (mkT (bs "0.0.0.0"%string) true TLS12 TLS13 [] [] [] true 2 [] false);
+               Some (mkT (bs "::"%string) true TLS12 TLS13 [] [] [] true 2 [] false);
+               Some (mkT [] true TLS12 TLS13 [] [] [] true 2 [] false)] = MkGroup g) /\
+  (* catch-all spellings with different client-certificate policies are a configuration error *)
+  make_tls_config (default_ciphers true) []
     [Some (mkT (bs "0.0.0.0"%string) true TLS12 TLS13 [] [] [] true 2 [] false);
-     Some (mkT (bs "::"%string) true TLS12 TLS13 [] [] [] true 0 [] false)].
-  eexists. eexists. eexists. eexists. eexists. eexists.
-  split; [vm_compute; reflexivity|]. split; [left; reflexivity|].
-  split; [vm_compute; reflexivity|]. split; [vm_compute; reflexivity|]. vm_compute. discriminate.
-Qed.
-Print Assumptions C06_same_name_sites_get_their_own_settings_refuted.
+     Some (mkT (bs "::"%string) true TLS12 TLS13 [] [] [] true 0 [] false)] = MkErr 3.
+Proof. split; [eexists; vm_compute; reflexivity|]. split; [eexists; vm_compute; reflexivity|]. vm_compute. reflexivity. Qed.
 
 (* ---- TLS 1.2 is the minimum unless the site configures otherwise ---- *)
 Theorem C06_min_version_default_tls12 :
@@ -149,35 +141,25 @@ Proof. exact tls_off_disables. Qed.
 Print Assumptions C06_tls_off_disables.
 
 (* ---- TLS and plaintext sites on one listener are rejected ----
-   For every list of site configs (none nil): if two of them disagree on Enabled, MakeTLSConfig
-   returns an error (adjacent comparison implies the global one). *)
-Theorem C06_mixing_rejected_partial :
-  forall dc bad cs,
-  (forall o, In o cs -> o <> None) ->
-  (exists c1 c2, In (Some c1) cs /\ In (Some c2) cs /\ enabled c1 <> enabled c2) ->
-  exists e, make_tls_config dc bad cs = MkErr e.
+   For EVERY list of site configs — a nil entry standing for a site without TLS, wherever it
+   stands in the list: if one entry has TLS enabled and another has not, MakeTLSConfig returns
+   an error (the adjacent-pair comparison implies the global one). *)
+Theorem C06_mixing_rejected :
+  forall dc bad cs, mixed cs = true -> exists e, make_tls_config dc bad cs = MkErr e.
 Proof. exact mixing_rejected. Qed.
-Print Assumptions C06_mixing_rejected_partial.
+Print Assumptions C06_mixing_rejected.
 
 Example C06_mixing_rejected_nonvacuous :
   make_tls_config (default_ciphers true) []
     [Some (mkT (bs "a.com"%string) true TLS12 TLS13 [] [] [] true 0 [] false);
      Some (mkT (bs "c.com"%string) true TLS12 TLS13 [] [] [] true 0 [] false);
-     Some (empty_cfg (bs "b.com"%string))] = MkErr 1.
-Proof. vm_compute. reflexivity. Qed.
-
-(* with a nil entry (which MakeTLSConfig turns into a plaintext placeholder) the claim fails:
-   TLS config followed by nil is accepted *)
-Theorem C06_mixing_rejected_refuted :
-  exists dc bad cs g c, In (Some c) cs /\ enabled c = true /\ In None cs /\
-                        make_tls_config dc bad cs = MkGroup g.
-Proof.
-  exists (default_ciphers true), [],
-    [Some (mkT (bs "a.com"%string) true TLS12 TLS13 [] [] [] true 0 [] false); None].
-  eexists. eexists. split; [left; reflexivity|]. split; [reflexivity|]. split; [right; left; reflexivity|].
-  vm_compute. reflexivity.
-Qed.
-Print Assumptions C06_mixing_rejected_refuted.
+     Some (empty_cfg (bs "b.com"%string))] = MkErr 1 /\
+  (* a nil entry after a TLS config, and before one *)
+  make_tls_config (default_ciphers true) []
+    [Some (mkT (bs "a.com"%string) true TLS12 TLS13 [] [] [] true 0 [] false); None] = MkErr 1 /\
+  make_tls_config (default_ciphers true) []
+    [None; Some (mkT (bs "a.com"%string) true TLS12 TLS13 [] [] [] true 0 [] false)] = MkErr 1.
+Proof. vm_compute. repeat split; reflexivity. Qed.
 
 (* the "cannot multiplex" error is raised only for a real TLS / not-TLS mix *)
 Theorem C06_mix_error_only_for_mixed_sets :
@@ -185,58 +167,81 @@ Theorem C06_mix_error_only_for_mixed_sets :
 Proof. exact mix_error_sound. Qed.
 Print Assumptions C06_mix_error_only_for_mixed_sets.
 
-(* a returned group means every site has TLS enabled *)
+(* a returned group means every entry is a config with TLS enabled (no nil entry) *)
 Theorem C06_group_means_all_tls :
   forall dc bad cs g,
-  (forall o, In o cs -> o <> None) -> make_tls_config dc bad cs = MkGroup g ->
-  forall c, In (Some c) cs -> enabled c = true.
+  make_tls_config dc bad cs = MkGroup g ->
+  (forall o, In o cs -> o <> None) /\ forall c, In (Some c) cs -> enabled c = true.
 Proof. exact group_all_enabled. Qed.
 Print Assumptions C06_group_means_all_tls.
 
 (* ---- client-certificate sites: SNI and Host must agree ----
-   For every site set, SNI and Host header: a request that reaches a site demanding client
-   certificates (policy set, strict matching not disabled) over TLS is served only if the SNI
-   equals the host name of the Host header (case-insensitively); it is refused (403) only for
-   such a mismatch. *)
+   For every site set, default server name, local address, SNI and Host header: a request that
+   reaches a site demanding client certificates (policy set, strict matching not disabled) over
+   TLS is served only if the SNI equals (case-insensitively) the host name of the Host header as
+   the vhost router normalises it — the very name the site was selected by — and, when the
+   handshake carried no SNI at all, only if no default server name is set and no site is named
+   by the local address of the connection (otherwise such a handshake is governed by that site,
+   not by the catch-all one).  It is refused (403) only for these reasons. *)
 Theorem C06_clientauth_requires_matching_sni :
-  forall sites sni rhost i s,
-  serve sites (Some sni) rhost = Served i -> nth_error sites i = Some s -> demands (s_tls s) = true ->
-  to_lower sni = to_lower (req_hostname rhost).
+  forall sites dflt conn sni rhost i s,
+  serve sites dflt conn (Some sni) rhost = Served i -> nth_error sites i = Some s -> demands (s_tls s) = true ->
+  to_lower sni = route_host rhost.
 Proof. exact strict_sni_host. Qed.
 Print Assumptions C06_clientauth_requires_matching_sni.
 
 Example C06_clientauth_requires_matching_sni_nonvacuous :
   let sites := [mkS (bs "a.com:443"%string) (mkT (bs "a.com"%string) true TLS12 TLS13 [] [] [] true 2 [] false);
                 mkS (bs "b.com:443"%string) (mkT (bs "b.com"%string) true TLS12 TLS13 [] [] [] true 0 [] false)] in
-  serve sites (Some (bs "A.com"%string)) (bs "a.com:443"%string) = Served 0 /\
-  serve sites (Some (bs "b.com"%string)) (bs "a.com:443"%string) = Forbidden 0.
-Proof. vm_compute. split; reflexivity. Qed.
+  serve sites [] None (Some (bs "A.com"%string)) (bs "a.com:443"%string) = Served 0 /\
+  serve sites [] None (Some (bs "b.com"%string)) (bs "a.com:443"%string) = Forbidden 0 /\
+  (* a second port inside brackets is stripped by the router: the SNI must name what remains *)
+  serve sites [] None (Some (bs "a.com:80"%string)) (bs "[a.com:80]:90"%string) = Forbidden 0.
+Proof. vm_compute. repeat split; reflexivity. Qed.
+
+Theorem C06_clientauth_without_sni_only_under_catch_all :
+  forall sites dflt conn rhost i s,
+  serve sites dflt conn (Some []) rhost = Served i -> nth_error sites i = Some s -> demands (s_tls s) = true ->
+  trim_space dflt = [] /\
+  forall a s', conn = Some a -> In s' sites -> host (s_tls s') <> host_only a.
+Proof. exact sniless_served. Qed.
+Print Assumptions C06_clientauth_without_sni_only_under_catch_all.
+
+Example C06_clientauth_without_sni_nonvacuous :
+  let sites := [open_site "127.0.0.1:443"%string "127.0.0.1"%string; mtls_site ":443"%string ""%string] in
+  (* reached through another address, the catch-all governs the handshake and the site answers *)
+  serve sites [] (Some (bs "10.0.0.1:443"%string)) (Some []) [] = Served 1 /\
+  (* on 127.0.0.1 the handshake belongs to the open site: refused *)
+  serve sites [] (Some (bs "127.0.0.1:443"%string)) (Some []) [] = Forbidden 1 /\
+  (* with a default server name the handshake belongs to the site of that name: refused *)
+  serve sites (bs "b.com"%string) (Some (bs "10.0.0.1:443"%string)) (Some []) [] = Forbidden 1.
+Proof. vm_compute. repeat split; reflexivity. Qed.
 
 Theorem C06_forbidden_only_on_mismatch :
-  forall sites tls rhost i,
-  serve sites tls rhost = Forbidden i ->
+  forall sites dflt conn tls rhost i,
+  serve sites dflt conn tls rhost = Forbidden i ->
   exists sni s, tls = Some sni /\ nth_error sites i = Some s /\ demands (s_tls s) = true /\
-                to_lower sni <> to_lower (req_hostname rhost).
+                (to_lower sni <> route_host rhost \/
+                 (sni = [] /\ sniless_elsewhere sites dflt conn = true)).
 Proof. exact forbidden_only_on_mismatch. Qed.
 Print Assumptions C06_forbidden_only_on_mismatch.
 
 
 (* The stronger reading of the clause: the handshake of a request served by a site that demands
    client certificates was governed by settings equal to that site's own (hence the same
-   client-certificate policy).  It holds for every site set keyed consistently (vhost key = TLS
-   host name, no 0.0.0.0 / :: spellings, no site answering for the router's fallback hosts through
-   "*" labels), every non-empty SNI without surrounding white space and every Host whose name
-   the router does not normalise further than the strict test does. *)
+   client-certificate policy).  It holds for every site set (each site keyed in the router by the
+   host name of its TLS config; 0.0.0.0 / :: / "" spellings included) in which no site is named
+   by a wildcard candidate of the router's fallback hosts ("*", "*.*.*.*", ...), every SNI
+   without surrounding white space — the empty one included —, every default server name and
+   local address, and EVERY Host header (the strict test looks at the name the router selected
+   the site by). *)
 Theorem C06_clientauth_policy_governs_partial :
   forall dc bad sites g dflt conn sni rhost v s,
   make_tls_config dc bad (map (fun s => Some (s_tls s)) sites) = MkGroup g ->
-  (forall s, In s sites -> vhost_key (s_addr s) = host (s_tls s) /\ key_of (host (s_tls s)) = host (s_tls s)) ->
-  match_host (vhosts sites) (bs "0.0.0.0"%string) = None ->
-  match_host (vhosts sites) (bs "::"%string) = None ->
-  mget (bs "*"%string) (vhosts sites) = None ->
-  serve sites (Some sni) rhost = Served v -> nth_error sites v = Some s -> demands (s_tls s) = true ->
-  trim_space sni = sni -> sni <> [] ->
-  route_host rhost = to_lower (req_hostname rhost) ->
+  (forall s, In s sites -> vhost_key (s_addr s) = host (s_tls s)) ->
+  (forall c, In c fallback_star_names -> mget c (vhosts sites) = None) ->
+  serve sites dflt conn (Some sni) rhost = Served v -> nth_error sites v = Some s -> demands (s_tls s) = true ->
+  trim_space sni = sni ->
   exists k i c ob, get_config g dflt conn sni = Found k (i, c, ob) /\ build dc bad (s_tls s) = Some ob.
 Proof. exact clientauth_policy_governs. Qed.
 Print Assumptions C06_clientauth_policy_governs_partial.
@@ -245,55 +250,38 @@ Example C06_clientauth_policy_governs_nonvacuous :
   let sites := [mtls_site "*.a.com:443"%string "*.a.com"%string; open_site "b.com:443"%string "b.com"%string;
                 open_site ":443"%string ""%string] in
   (exists g, make_tls_config (default_ciphers true) [] (map (fun s => Some (s_tls s)) sites) = MkGroup g) /\
-  (forall s, In s sites -> vhost_key (s_addr s) = host (s_tls s) /\ key_of (host (s_tls s)) = host (s_tls s)) /\
-  match_host (vhosts sites) (bs "0.0.0.0"%string) = None /\
-  match_host (vhosts sites) (bs "::"%string) = None /\
-  mget (bs "*"%string) (vhosts sites) = None /\
-  serve sites (Some (bs "X.a.com"%string)) (bs "x.A.com:443"%string) = Served 0 /\
-  route_host (bs "x.A.com:443"%string) = to_lower (req_hostname (bs "x.A.com:443"%string)).
+  (forall s, In s sites -> vhost_key (s_addr s) = host (s_tls s)) /\
+  (forall c, In c fallback_star_names -> mget c (vhosts sites) = None) /\
+  serve sites [] None (Some (bs "X.a.com"%string)) (bs "x.A.com:443"%string) = Served 0.
 Proof.
   split; [eexists; vm_compute; reflexivity|].
-  split; [intros s [<-|[<-|[<-|[]]]]; vm_compute; split; reflexivity|].
-  vm_compute. repeat split.
+  split; [intros s [<-|[<-|[<-|[]]]]; vm_compute; reflexivity|].
+  split; [|vm_compute; reflexivity].
+  intros c Hc. vm_compute in Hc. repeat (destruct Hc as [<-|Hc]; [vm_compute; reflexivity|]). destruct Hc.
 Qed.
 
-(* Without those side conditions the stronger reading — the handshake of a request served by a client-certificate site was
-   governed by that site's own policy — is false of the code.  Witnesses (each replayed on the
-   real server, corpus/C06): empty SNI + empty Host with a local-IP site; a Host whose name is
-   normalised once more by the router than by the strict test ([b:80]:90); 0.0.0.0 and ::
-   sharing the catch-all key without the compatibility assert. *)
-
-
-Theorem C06_clientauth_policy_governs_refuted_empty_names :
-  served_under_foreign_policy [open_site "127.0.0.1:443"%string "127.0.0.1"%string; mtls_site ":443"%string ""%string]
-                              [] (Some (bs "127.0.0.1:443"%string)) [] [].
+(* the unspecified-address spellings are covered: client-certificate sites 0.0.0.0 and :: answer
+   for an unmatched name through the router's fallback hosts, and the catch-all config that
+   governs the handshake demands the certificates *)
+Example C06_clientauth_policy_governs_nonvacuous_unspecified :
+  let sites := [mtls_site "0.0.0.0:443"%string "0.0.0.0"%string; mtls_site "[::]:443"%string "::"%string;
+                open_site "b.com:443"%string "b.com"%string] in
+  (forall s, In s sites -> vhost_key (s_addr s) = host (s_tls s)) /\
+  (forall c, In c fallback_star_names -> mget c (vhosts sites) = None) /\
+  serve sites [] None (Some (bs "z.org"%string)) (bs "z.org"%string) = Served 0 /\
+  exists g i c b, make_tls_config (default_ciphers true) [] (map (fun s => Some (s_tls s)) sites) = MkGroup g /\
+                  get_config g [] None (bs "z.org"%string) = Found [] (i, c, Some b) /\ b_cauth b = 2.
 Proof.
-  unfold served_under_foreign_policy. do 7 eexists.
-  split; [vm_compute; reflexivity|]. split; [vm_compute; reflexivity|]. split; [vm_compute; reflexivity|].
-  split; [vm_compute; reflexivity|]. split; [vm_compute; reflexivity|]. vm_compute. discriminate.
+  split; [intros s [<-|[<-|[<-|[]]]]; vm_compute; reflexivity|].
+  split; [intros c Hc; vm_compute in Hc;
+          repeat (destruct Hc as [<-|Hc]; [vm_compute; reflexivity|]); destruct Hc|].
+  split; [vm_compute; reflexivity|].
+  do 4 eexists. split; [vm_compute; reflexivity|]. split; vm_compute; reflexivity.
 Qed.
-Print Assumptions C06_clientauth_policy_governs_refuted_empty_names.
 
-Theorem C06_clientauth_policy_governs_refuted_nested_port :
-  served_under_foreign_policy [mtls_site "b:443"%string "b"%string; open_site ":443"%string ""%string]
-                              [] None (bs "b:80"%string) (bs "[b:80]:90"%string).
-Proof.
-  unfold served_under_foreign_policy. do 7 eexists.
-  split; [vm_compute; reflexivity|]. split; [vm_compute; reflexivity|]. split; [vm_compute; reflexivity|].
-  split; [vm_compute; reflexivity|]. split; [vm_compute; reflexivity|]. vm_compute. discriminate.
-Qed.
-Print Assumptions C06_clientauth_policy_governs_refuted_nested_port.
-
-Theorem C06_clientauth_policy_governs_refuted_unspecified_alias :
-  served_under_foreign_policy [mtls_site "0.0.0.0:443"%string "0.0.0.0"%string; open_site "[::]:443"%string "::"%string]
-                              [] None (bs "z.org"%string) (bs "z.org"%string).
-Proof.
-  unfold served_under_foreign_policy. do 7 eexists.
-  split; [vm_compute; reflexivity|]. split; [vm_compute; reflexivity|]. split; [vm_compute; reflexivity|].
-  split; [vm_compute; reflexivity|]. split; [vm_compute; reflexivity|]. vm_compute. discriminate.
-Qed.
-Print Assumptions C06_clientauth_policy_governs_refuted_unspecified_alias.
-
+(* Without the condition on wildcard names the stronger reading — the handshake of a request
+   served by a client-certificate site was governed by that site's own policy — is false of the
+   code.  Witness (replayed on the real server, corpus/C06): a site named "*". *)
 Theorem C06_clientauth_policy_governs_refuted_all_wildcard_site :
   served_under_foreign_policy [mtls_site "*:443"%string "*"%string; open_site ":443"%string ""%string]
                               [] None (bs "z.org"%string) (bs "z.org"%string).
